@@ -163,6 +163,8 @@ def run(ck):
         overlap = max_in >= 2 or (vd.get("maxholders", "-").isdigit() and int(vd["maxholders"]) >= 2)
         too_many = any(v >= 2 for v in seen_vals)
         fixed_v = vd.get("fixed", "missing")
+        if ob.get("status") == "skipped":
+            continue
         if ob.get("status") != "ok":
             key = "%s:harness-%s" % (SRC, ob.get("status", "none").split("(")[0])
             if key not in reported:
